@@ -66,6 +66,7 @@ type NodeCfg struct {
 	Verbose         bool              `json:"verbose,omitempty"`
 	DynWorkers      bool              `json:"dyn_workers,omitempty"`
 	DiskChunk       int               `json:"disk_chunk,omitempty"`
+	DiskReadMs      int               `json:"disk_read_ms,omitempty"` // simulated duration of a whole-file read
 	ExtraArgs       []string          `json:"extra_args,omitempty"`
 	Env             map[string]string `json:"env,omitempty"`
 	ConfFile        string            `json:"conf_file,omitempty"` // content of /etc/vflow/vflow.conf
@@ -255,9 +256,19 @@ func fetchStats(s *simrt.Sim) (*FlowStats, string) {
 	}
 	rec := httptest.NewRecorder()
 	req := httptest.NewRequest("GET", "/flow", nil)
-	simrt.RaceSyncOn()
-	s.HTTP[0].Handler.ServeHTTP(rec, req)
-	simrt.RaceSyncOff()
+	if simrt.Self() == nil {
+		// called by the scheduler goroutine (between steps), which runs with
+		// race synchronisation events switched off: switch them on for the
+		// program code. A task already runs with them on - and there the
+		// toggle would switch them off (the runtime ignores synchronisation
+		// whenever its per-goroutine counter is not zero, also when negative).
+		simrt.RaceSyncOn()
+		s.HTTP[0].Handler.ServeHTTP(rec, req)
+		simrt.RaceSyncOff()
+	} else {
+		simrt.BootAcquire()
+		s.HTTP[0].Handler.ServeHTTP(rec, req)
+	}
 	var fs FlowStats
 	if err := json.Unmarshal(rec.Body.Bytes(), &fs); err != nil {
 		return nil, "stats: " + err.Error() + ": " + rec.Body.String()
